@@ -152,6 +152,8 @@ def run(rep, tier, rng):
             if n >= 2:
                 term_sets.append([names[1], names[0]])
                 term_sets.append([f"{names[0]}*{names[1]}", names[1], f"{names[1]}+{names[0]}"])
+                # more terms than the vocabulary has keys: every key plus compound terms (counts are counts of TERMS)
+                term_sets.append(names[:n] + [f"{names[0]}*{names[1]}", f"{names[1]}+{names[0]}"])
             for terms in term_sets:
                 if terms is None:
                     tvecs, tnames, sc = ivecs, names[:n], k
@@ -228,6 +230,11 @@ def run(rep, tier, rng):
     for step, nm in enumerate(names[:6]):
         voc.populate(nm)
         hist_names.append(nm)
+        if step % 2:
+            try:                       # a rejected addition (wrong dimensionality) in between leaves nothing behind
+                voc.add("Z%d" % step, np.zeros(3))
+            except Exception:  # noqa
+                pass
         for rpt in range(2):
             o = c.observe(lambda: pairs(voc))
             obs = c.lst([c.s(x) for x in sorted(o[1])]) if o[0] == "ok" else "[]"
@@ -235,6 +242,27 @@ def run(rep, tier, rng):
                 ("pairs-history", step, rpt), nontrivial=len(hist_names) >= 2)
             if o[0] == "ok" and isinstance(o[1], set):
                 o[1].add("X*Y")       # a caller mutating its result must not affect later calls
+
+    # similarity / text after a rejected addition to the vocabulary (wrong dimensionality, then a successful addition)
+    for n in (2, 3):
+        hvecs = [algs.rand_vec(rng, d, -3, 3) for _ in range(n + 1)]
+        voc = spa.Vocabulary(d)
+        for nm, v in zip(names[:n], hvecs):
+            voc.add(nm, algs.fl(v))
+        try:
+            voc.add("Q", np.zeros(d + 1))
+        except Exception:  # noqa
+            pass
+        voc.add(names[n], algs.fl(hvecs[n]))
+        dv = algs.rand_vec(rng, d, -3, 3)
+        o = c.observe(lambda: similarity(algs.fl(dv), voc))
+        add(f"check_similarity1 {c.zmat(hvecs)} {c.zlist(dv)} {T} {sobs(o, algs.enc_vec)}",
+            {"op": "similarity-after-rejected-add", "form": "Vocabulary", "n": n + 1, "vectors": hvecs, "data": dv, "obs": repr(o)[:200]},
+            ("sim-after-rejected-add", n, tuple(map(tuple, hvecs)), tuple(dv)))
+        o = c.observe(lambda: text(SemanticPointer(algs.fl(dv)), voc, minimum_count=n + 1, threshold=None))
+        add(f"check_text 0 (Some {n + 1}) None None {c.zlist(dv)} {c.zmat(hvecs)} {c.lst([c.s(t) for t in names[:n + 1]])} {sobs(o, c.s)}",
+            {"op": "text-after-rejected-add", "n": n + 1, "min": n + 1, "max": None, "threshold": None, "terms": None, "v": dv, "vectors": hvecs, "obs": repr(o)[:200]},
+            ("text-after-rejected-add", n, tuple(map(tuple, hvecs)), tuple(dv)))
 
     verdicts = c.coq_eval("C20", "cases", IMPORTS, exprs, shard=300)
     for ok, m in zip(verdicts, meta):
